@@ -1,3 +1,8 @@
+/-
+C06 — NAF layer, part 1: `bitSize`/shift facts, the digit decoder `decode` (mirrors the reading order of
+`ecMulA`: odd code ⇒ digit of `w` bits, even ⇒ zero digit of 1 bit), `sval`, `nafVal`, push lemmas, and the
+four arithmetic cases of one `wwNAF` iteration (`nafStep_cases`).
+-/
 import Bee2V.C06.Mul
 import Mathlib.Tactic.Ring
 import Mathlib.Tactic.Linarith
